@@ -298,7 +298,7 @@ class Decode(Family):
     shard = 150
 
     def generate(self, rng, tier):
-        n = 1500 if tier == "quick" else 20000
+        n = 2000 if tier == "quick" else 20000
         for i in range(n):
             desc = gen_desc(rng, tier)
             ns = len(desc["sites"])
@@ -626,13 +626,13 @@ class Views(Family):
     shard = 200
 
     def generate(self, rng, tier):
-        n = 900 if tier == "quick" else 12000
+        n = 1500 if tier == "quick" else 12000
         for i in range(n):
             single = rng.random() < 0.75
             integer = rng.random() < 0.7
             pool = rng.choice([("A", "C", "G", "T"), ("A", "C"), ("0", "1", "2")]) if single else None
             desc = gen_desc(rng, tier, pool=pool, integer=integer)
-            if integer and rng.random() < 0.5:
+            if integer and rng.random() < 0.75:
                 # alignments refuse isolated samples anywhere: make most such cases connected
                 desc = connect(rng, desc)
             L = desc["L"]
@@ -642,6 +642,12 @@ class Views(Family):
             r = rng.random()
             if r < 0.4:
                 left = right = None
+            elif r < 0.75:
+                step = 1 if (integer and rng.random() < 0.8) else 0.5
+                pts = [x * step for x in range(0, int(L / step) + 1)]
+                a, b = sorted(rng.sample(pts, 2))
+                left = rng.choice([None, a, a])
+                right = rng.choice([None, b, b])
             else:
                 pts = [0, L] + [x / 2 for x in range(0, 2 * L + 1)]
                 left = rng.choice([None] + pts)
@@ -929,6 +935,8 @@ class Views(Family):
                 terms.append("res_eqb zll_eqb (%s) (Ok [%s])" % (model, "; ".join(cbytes_of(x) for x in h["ok"])))
             elif h["exc"] in ("ValueError", "TypeError"):
                 terms.append("res_eqb zll_eqb (%s) (Err %s)" % (model, "PY_VALUE_ERROR" if h["exc"] == "ValueError" else "PY_TYPE_ERROR"))
+            else:
+                terms.append("false (* haplotypes raised %s, the model has no such outcome *)" % h["exc"])
         # alignments from the haplotype rows
         a = obs["alignments"]
         sc = desc.get("scale", 1)
@@ -1004,7 +1012,93 @@ def connect(rng, desc):
     return d
 
 
-FAMILIES = [Decode, Views]
+# --------------------------------------------------------------------------------------
+# family: exhaustive small scope (all admissible mutation lists on fixed small forests)
+# --------------------------------------------------------------------------------------
+
+def _base(nodes, edges, L, sites):
+    return {"L": L, "scale": 1, "nodes": [[f, t, NULL, NULL, ""] for f, t in nodes],
+            "edges": [[l, r, p, c, ""] for l, r, p, c in edges],
+            "sites": [[x, a, ""] for x, a in sites], "mutations": [],
+            "individuals": [], "populations": [], "migrations": []}
+
+
+BASES = [
+    # 0,1 under 3; 3,2 under 4; 5 an isolated sample
+    _base([(1, 0), (1, 0), (1, 0), (0, 1), (0, 2), (1, 0)],
+          [(0, 1, 3, 0), (0, 1, 3, 1), (0, 1, 4, 3), (0, 1, 4, 2)], 1, [(0, "A")]),
+    # internal sample 2 on a unary chain 0 -> 2 -> 3, 1 under 3, 4 an isolated non-sample
+    _base([(1, 0), (1, 0), (1, 1), (0, 2), (0, 0)],
+          [(0, 1, 2, 0), (0, 1, 3, 2), (0, 1, 3, 1)], 1, [(0.5, "A")]),
+    # two trees; the site lies in the second one where sample 0 is isolated and 1,2 hang under 3
+    _base([(1, 0), (1, 0), (1, 0), (0, 1), (0, 2)],
+          [(0, 1, 3, 0), (0, 2, 3, 1), (0, 1, 4, 3), (0, 1, 4, 2), (1, 2, 3, 2)], 2, [(1, "A")]),
+]
+
+
+def admissible_lists(par, n, states, maxlen):
+    """all mutation lists (node, state) of length <= maxlen in which no mutation sits on a
+    proper ancestor of the node of an earlier one"""
+    def proper_anc(a, u):
+        v = par[u]
+        while v != NULL:
+            if v == a:
+                return True
+            v = par[v]
+        return False
+    out = [[]]
+    frontier = [[]]
+    for _ in range(maxlen):
+        nxt = []
+        for ms in frontier:
+            for u in range(n):
+                if any(proper_anc(u, m[0]) for m in ms):
+                    continue
+                for st in states:
+                    nxt.append(ms + [[u, st]])
+        out += nxt
+        frontier = nxt
+    return out
+
+
+def with_mutations(base, ms):
+    d = dict(base)
+    par = gen_ts.parent_at(base, base["sites"][0][0])
+    rows, last_on = [], {}
+    for j, (u, st) in enumerate(ms):
+        v, mp = u, NULL
+        while v != NULL:
+            if v in last_on:
+                mp = last_on[v]
+                break
+            v = par[v]
+        rows.append([0, u, st, mp, None, ""])
+        last_on[u] = j
+    d["mutations"] = rows
+    return d
+
+
+class Exhaustive(Decode):
+    name = "exhaustive"
+    shard = 200
+
+    def generate(self, rng, tier):
+        maxlen = 2 if tier == "quick" else 3
+        states = ("A", "C") if tier == "quick" else ("A", "C", "")
+        for base in BASES:
+            n = len(base["nodes"])
+            par = gen_ts.parent_at(base, base["sites"][0][0])
+            ss = ts_samples(base)
+            configs = [(None, True, None), (None, False, None), (list(range(n)), False, None),
+                       (ss[::-1], True, ["C", "A", ""])]
+            for ms in admissible_lists(par, n, states, maxlen):
+                d = with_mutations(base, ms)
+                for samples, iam, al in configs:
+                    yield {"desc": d, "samples": samples, "iam": iam, "alleles": al, "order": [0, 0],
+                           "mds": None}
+
+
+FAMILIES = [Decode, Exhaustive, Views]
 
 NOT_COVERED = [
     "tsk_tree_seek inside tsk_variant_decode (property C06) and the construction of the tree arrays (C01): "
